@@ -293,14 +293,12 @@ func (m *Model) Draw(win vaxis.Window) {
 	}
 }
 
-// isAlphaNumeric returns true if the character is a letter or a number
+// isAlphaNumeric returns true if the character is a letter or a number. The
+// first rune is the base of the grapheme cluster: combining marks following it
+// do not change its class
 func isAlphaNumeric(c vaxis.Character) bool {
-	runes := []rune(c.Grapheme)
-	if len(runes) > 1 {
-		return false
-	}
-	if unicode.IsLetter(runes[0]) || unicode.IsNumber(runes[0]) {
-		return true
+	for _, r := range c.Grapheme {
+		return unicode.IsLetter(r) || unicode.IsNumber(r)
 	}
 	return false
 }
